@@ -248,7 +248,7 @@ def run(ctx, prop, props_file, rule, distribution_note):
         raise C.BuildError("harness errors (no verdict): " + "; ".join(harness_errors[:5]))
 
     cov = C.proof_coverage(
-        pr, "make -f Makefile.coq %s (coqc 8.16.1) in /verif/coq" % (props_file[:-2] + ".vo"), TRUSTED,
+        pr, "make -f Makefile.coq %s (coqc 8.16.1) in /verif/coq" % " ".join(x[:-2] + ".vo" for x in (props_file if isinstance(props_file, list) else [props_file])), TRUSTED,
         {"evaluations": evals, "distinct_nontrivial": len(nontrivial), "rule": rule, "samples": samples,
          "input_distribution": dict(stats, note=distribution_note), "disagreements": disagreements,
          "direct_oracle_failures": direct_fail, "coqchk": coqchk or "thorough tier only",
